@@ -4,8 +4,9 @@
 from __future__ import annotations
 
 import json
+from dataclasses import fields
 from pathlib import Path, PosixPath, WindowsPath
-from typing import Any, Callable
+from typing import Any, Callable, Sequence
 
 from _griffe import expressions
 from _griffe.enumerations import Kind, ParameterKind
@@ -109,6 +110,10 @@ def _load_expression(expression: dict) -> expressions.Expr:
                 value.parent = previous
             if isinstance(value, expressions.ExprName):
                 previous = value
+            elif isinstance(value, str):
+                # Names following a string literal (`"a".join`) are attributes of `str`,
+                # as when building expressions.
+                previous = "str"
     return expr
 
 
@@ -122,14 +127,20 @@ def _load_parameter(obj_dict: dict[str, Any]) -> Parameter:
     )
 
 
-def _attach_parent_to_expr(expr: expressions.Expr | str | None, parent: Module | Class) -> None:
-    if not isinstance(expr, expressions.Expr):
-        return
-    for elem in expr:
-        if isinstance(elem, expressions.ExprName):
-            elem.parent = parent
-        elif isinstance(elem, expressions.ExprAttribute) and isinstance(elem.first, expressions.ExprName):
-            elem.first.parent = parent
+def _attach_parent_to_expr(expr: expressions.Expr | str | Sequence | None, parent: Module | Class) -> None:
+    # Names can appear at any depth of an expression: walk the whole tree.
+    if isinstance(expr, (list, tuple)):
+        for elem in expr:
+            _attach_parent_to_expr(elem, parent)
+    elif isinstance(expr, expressions.ExprName):
+        expr.parent = parent
+    elif isinstance(expr, expressions.ExprAttribute):
+        # Only the leftmost value is resolved in the scope of the parent:
+        # the following names were chained to it when loading the expression.
+        _attach_parent_to_expr(expr.first, parent)
+    elif isinstance(expr, expressions.Expr):
+        for field in fields(expr):
+            _attach_parent_to_expr(getattr(expr, field.name), parent)
 
 
 def _attach_parent_to_exprs(obj: Class | Function | Attribute, parent: Module | Class) -> None:
@@ -141,6 +152,7 @@ def _attach_parent_to_exprs(obj: Class | Function | Attribute, parent: Module | 
             _attach_parent_to_expr(obj.docstring.value, parent)
         for decorator in obj.decorators:
             _attach_parent_to_expr(decorator.value, parent)
+        _attach_parent_to_expr(obj.bases, parent)
     elif isinstance(obj, Function):
         if obj.docstring:
             _attach_parent_to_expr(obj.docstring.value, parent)
@@ -154,6 +166,7 @@ def _attach_parent_to_exprs(obj: Class | Function | Attribute, parent: Module | 
         if obj.docstring:
             _attach_parent_to_expr(obj.docstring.value, parent)
         _attach_parent_to_expr(obj.value, parent)
+        _attach_parent_to_expr(obj.annotation, parent)
 
 
 def _load_module(obj_dict: dict[str, Any]) -> Module:
